@@ -12,10 +12,12 @@ from vf.lib import buf, ptr_array
 RULE = ("cases: (a) commit(b, v, H) with b from the 256-bit edge set (0, n-1, >= n, -v*k for a generator k*G so that the point is infinity), v from the 64-bit edge set, "
         "H from {generator_h, generate(seed), generate_blinded(seed, r incl. r >= n), parse(bytes) of k*G / small-x points}; every generator is compared with the "
         "reference derivation (SvdW two-hash sum, + r*G; also against generate -> pubkey -> ec_pubkey_tweak_add as the header states) and every commitment with enc(b*G + v*H); "
-        "(b) blind_sum / blind_generator_blind_sum on edge scalar lists (some >= n) against the reference scalar; "
+        "(b) blind_sum / blind_generator_blind_sum on edge scalar lists (some >= n) against the reference scalar, also with ALIASED buffers (blind_out is blinds[i] -- the in-place "
+        "running total --, two entries share one buffer, the in/out last blinding factor is also another blinding factor / a generator blind): same result as with separate buffers; "
         "(c) tallies of 0..32 positive and 0..32 negative commitments over 1..4 generators (incl. H and -H, duplicates, known-dlog generators), value-balanced per generator "
         "by construction, last blinding factor from the library's own helper, then optionally perturbed (one unit of one value, entry dropped / duplicated / moved, blinding "
-        "factor changed), plus parsed raw commitments (P, -P); asset-blinded variant through blind_generator_blind_sum; oracle = the reference sum of the points is infinity; "
+        "factor changed), plus parsed raw commitments (P, -P); one-sided lists that sum to infinity on their own (b / n-b with value 0, H / -H with equal values, three-term "
+        "combinations) with the empty side given as a pointer to nothing and as NULL; asset-blinded variant through blind_generator_blind_sum; oracle = the reference sum of the points is infinity; "
         "(d) parser grids: every prefix byte 0..255 x {boundary, small, x+p, on-curve (x of k*G), hash-derived} x for both 33-byte parsers (one case = one x = 512 strings), accepted "
         "objects are used (commit / tally) so that the sign convention is observed and not only re-serialised. "
         "non-trivial = edge b or v, generator other than h, >= 2 generators, an empty side, a perturbed list, or a grid x")
@@ -70,22 +72,45 @@ def lib_commit(env, b, v, g):
     return r, c
 
 
-def lib_tally(env, pos, neg):
-    return env.lib.dll.secp256k1_pedersen_verify_tally(env.lib.ctx, ptr_array(pos), c_size_t(len(pos)), ptr_array(neg), c_size_t(len(neg)))
+# verify_tally with an EMPTY side given as NULL: the header prose allows it ("cannot be NULL if pcnt is non-zero"), the implementation checks exactly that
+# (ARG_CHECK(!pcnt || commits != NULL)) and the repository's own API test calls it this way (generator/tests_impl.h: verify_tally(CTX, NULL, 0, &p, 1), (NULL, 0, NULL, 0));
+# only the SECP256K1_ARG_NONNULL(2)/(4) attributes of the prototype disagree (they are caller-side compiler hints, empty while the library itself is built).
+# Set to False to never pass NULL (then the class null_empty_side is not required either).
+NULL_EMPTY_SIDE = True
 
 
-def lib_blind_sum(env, blinds, npos):
-    bufs = [buf(32, ec.i2b(b)) for b in blinds]
-    out = buf(32, b"\xaa" * 32)
+def lib_tally(env, pos, neg, null_empty=False):
+    pa = None if (null_empty and NULL_EMPTY_SIDE and not pos) else ptr_array(pos)
+    na = None if (null_empty and NULL_EMPTY_SIDE and not neg) else ptr_array(neg)
+    return env.lib.dll.secp256k1_pedersen_verify_tally(env.lib.ctx, pa, c_size_t(len(pos)), na, c_size_t(len(neg)))
+
+
+def _alias_bufs(values, same):
+    """one 32-byte buffer per entry, except that the entries listed in `same` (pairs (j, i)) share entry i's buffer"""
+    bufs = [buf(32, ec.i2b(b)) for b in values]
+    for j, i in same:
+        bufs[j] = bufs[i]
+    return bufs
+
+
+def lib_blind_sum(env, blinds, npos, out_alias=None, same=()):
+    """out_alias = i: blind_out IS the buffer of blinds[i] (in-place running total); same: pairs of entries sharing one buffer"""
+    bufs = _alias_bufs(blinds, same)
+    out = bufs[out_alias] if out_alias is not None else buf(32, b"\xaa" * 32)
     r = env.lib.dll.secp256k1_pedersen_blind_sum(env.lib.ctx, out, ptr_array(bufs), c_size_t(len(bufs)), c_size_t(npos))
     return r, out.raw
 
 
-def lib_bgbs(env, vals, rs, rps, n_inputs):
+def lib_bgbs(env, vals, rs, rps, n_inputs, last_is_rp=None, last_is_r=None, same_r=()):
+    """last_is_rp = j: blinding_factor[j] is the same buffer as the in/out last blinding factor; last_is_r = j: generator_blind[j] is that buffer"""
     n = len(vals)
     varr = (c_uint64 * n)(*vals)
-    rb = [buf(32, ec.i2b(x)) for x in rs]
+    rb = _alias_bufs(rs, same_r)
     pb = [buf(32, ec.i2b(x)) for x in rps]
+    if last_is_rp is not None:
+        pb[last_is_rp] = pb[-1]
+    if last_is_r is not None:
+        rb[last_is_r] = pb[-1]
     r = env.lib.dll.secp256k1_pedersen_blind_generator_blind_sum(env.lib.ctx, varr, ptr_array(rb), ptr_array(pb), c_size_t(n), c_size_t(n_inputs))
     return r, [x.raw for x in pb], [x.raw for x in rb]
 
@@ -241,46 +266,90 @@ def run_commit(env, case):
 # ---- blind sums
 @st.composite
 def blindsum_case(draw):
-    """mostly valid lists; in about 40 % of the cases ONE position carries a scalar >= n (so that a dropped range check is visible at every position)"""
+    """mostly valid lists; in about 40 % of the cases ONE position carries a scalar >= n (so that a dropped range check is visible at every position);
+    in about 40 % of the cases buffers ALIAS: the output is one of the inputs (in-place running total), or two inputs are one buffer"""
     kind = draw(st.sampled_from(["sum", "bgbs"]))
     bad = draw(st.sampled_from([False, False, False, True, True]))
+    al = draw(st.sampled_from([None, None, None, "out_in", "out_in", "in_in"]))
     if kind == "sum":
         n = draw(st.one_of(st.integers(0, 6), st.integers(0, 33)))
         bl = [draw(blind_valid) for _ in range(n)]
         if bad and n:
             bl[draw(st.integers(0, n - 1))] = draw(blind_big)
-        return {"kind": "sum", "blinds": bl, "npos": draw(st.integers(0, n))}
+        case = {"kind": "sum", "blinds": bl, "npos": draw(st.integers(0, n))}
+        if al == "out_in" and n:
+            case["alias"] = {"kind": "out_in", "i": draw(st.sampled_from([0, n - 1, max(0, case["npos"] - 1), min(n - 1, case["npos"]), draw(st.integers(0, n - 1))]))}
+        elif al == "in_in" and n >= 2:
+            case["alias"] = {"kind": "in_in", "i": draw(st.integers(0, n - 1)), "j": draw(st.integers(0, n - 1))}
+        return case
     n = draw(st.one_of(st.integers(1, 5), st.integers(1, 33)))
     case = {"kind": "bgbs", "vals": [draw(value_st) for _ in range(n)], "rs": [draw(blind_valid) for _ in range(n)], "rps": [draw(blind_valid) for _ in range(n)],
             "nin": draw(st.integers(0, n - 1))}
     if bad:
         case[draw(st.sampled_from(["rs", "rps"]))][draw(st.sampled_from([0, n - 1, draw(st.integers(0, n - 1))]))] = draw(blind_big)
+    if al == "out_in":
+        # the in/out last blinding factor shares its buffer with another blinding factor or with a generator blind
+        if n >= 2 and draw(st.booleans()):
+            case["alias"] = {"kind": "last_rp", "j": draw(st.integers(0, n - 2))}
+        else:
+            case["alias"] = {"kind": "last_r", "j": draw(st.sampled_from([0, n - 1, draw(st.integers(0, n - 1))]))}
+    elif al == "in_in" and n >= 2:
+        case["alias"] = {"kind": "in_in", "i": draw(st.integers(0, n - 1)), "j": draw(st.integers(0, n - 1))}
     return case
 
 
 def run_blindsum(env, case):
     lib = env.lib
     lib.reset()
+    al = case.get("alias")
+    classes = []
     if case["kind"] == "sum":
-        bl = case["blinds"]
-        r, out = lib_blind_sum(env, bl, case["npos"])
+        bl = list(case["blinds"])
+        kw = {}
+        if al and al["kind"] == "out_in":
+            kw["out_alias"] = al["i"]
+            classes.append("alias:out_in")
+            classes.append("alias_out_pos" if al["i"] < case["npos"] else "alias_out_neg")
+        elif al and al["kind"] == "in_in" and al["i"] != al["j"]:
+            bl[al["j"]] = bl[al["i"]]          # one buffer, hence one value
+            kw["same"] = [(al["j"], al["i"])]
+            classes.append("alias:in_in")
+        r, out = lib_blind_sum(env, bl, case["npos"], **kw)
         ref = PD.blind_sum(bl, case["npos"])
-        env.require((r == 1) == (ref is not None), "pedersen_blind_sum returned %d; specified: fails exactly when a blinding factor is >= n" % r, blinds=[hex(x) for x in bl])
+        env.require((r == 1) == (ref is not None), "pedersen_blind_sum returned %d; specified: fails exactly when a blinding factor is >= n" % r, blinds=[hex(x) for x in bl], alias=al)
         if r == 1:
-            env.require(out == ec.i2b(ref), "pedersen_blind_sum result differs from sum(+)-sum(-) mod n", blinds=[hex(x) for x in bl], npos=case["npos"], lib=out, ref=hex(ref))
-        classes = ["sum", "sum_ok" if r else "sum_overflow", "n=0" if not bl else "n>0"]
+            env.require(out == ec.i2b(ref), "pedersen_blind_sum result differs from sum(+)-sum(-) mod n%s" % (" when buffers alias (in-place use gives another result than separate buffers)" if kw else ""),
+                        blinds=[hex(x) for x in bl], npos=case["npos"], alias=al, lib=out, ref=hex(ref))
+        classes += ["sum", "sum_ok" if r else "sum_overflow", "n=0" if not bl else "n>0"]
         if case["npos"] in (0, len(bl)):
             classes.append("one_sided")
     else:
-        vals, rs, rps, nin = case["vals"], case["rs"], case["rps"], case["nin"]
-        r, outs, routs = lib_bgbs(env, vals, rs, rps, nin)
+        vals, rs, rps, nin = case["vals"], list(case["rs"]), list(case["rps"]), case["nin"]
+        kw = {}
+        if al and al["kind"] == "last_rp":
+            rps[al["j"]] = rps[-1]
+            kw["last_is_rp"] = al["j"]
+            classes += ["alias:out_in", "alias:bgbs_last_rp"]
+        elif al and al["kind"] == "last_r":
+            rs[al["j"]] = rps[-1]
+            kw["last_is_r"] = al["j"]
+            classes += ["alias:out_in", "alias:bgbs_last_r"]
+        elif al and al["kind"] == "in_in" and al["i"] != al["j"]:
+            rs[al["j"]] = rs[al["i"]]
+            kw["same_r"] = [(al["j"], al["i"])]
+            classes.append("alias:in_in")
+        r, outs, routs = lib_bgbs(env, vals, rs, rps, nin, **kw)
         ref = SJ.blind_generator_blind_sum(vals, rs, rps, nin)
         env.require((r == 1) == (ref is not None), "blind_generator_blind_sum returned %d; specified: fails exactly when a scalar is >= n" % r, case=case)
         if r == 1:
-            env.require(outs[-1] == ec.i2b(ref), "blind_generator_blind_sum: last blinding factor is not r'_last - signed sum(v*r + r')", case=case, lib=outs[-1], ref=hex(ref))
-            env.require(all(outs[i] == ec.i2b(rps[i]) for i in range(len(vals) - 1)) and all(routs[i] == ec.i2b(rs[i]) for i in range(len(vals))),
+            env.require(outs[-1] == ec.i2b(ref), "blind_generator_blind_sum: last blinding factor is not r'_last - signed sum(v*r + r')%s" % (" when buffers alias" if kw else ""),
+                        case=case, lib=outs[-1], ref=hex(ref))
+            # every buffer that is not the in/out one keeps its content
+            keep_p = [i for i in range(len(vals) - 1) if i != kw.get("last_is_rp")]
+            keep_r = [i for i in range(len(vals)) if i != kw.get("last_is_r")]
+            env.require(all(outs[i] == ec.i2b(rps[i]) for i in keep_p) and all(routs[i] == ec.i2b(rs[i]) for i in keep_r),
                         "blind_generator_blind_sum modified an input other than the last blinding factor")
-        classes = ["bgbs", "bgbs_ok" if r else "bgbs_overflow"]
+        classes += ["bgbs", "bgbs_ok" if r else "bgbs_overflow"]
     env.require(lib.illegal() == 0 and lib.errors() == 0, "callback fired: " + lib.cbmsg())
     return True, classes
 
@@ -292,7 +361,14 @@ def derive(seedhex, tag, i, mod=N):
 
 @st.composite
 def tally_case(draw):
-    mode = draw(st.sampled_from(["plain", "plain", "asset"]))
+    mode = draw(st.sampled_from(["plain", "plain", "plain", "asset", "asset", "one_sided"]))
+    if mode == "one_sided":
+        # ONE non-empty side that sums to infinity on its own; the other side is empty (a pointer to nothing, or NULL)
+        v63 = st.one_of(st.integers(0, 5), st.integers(0, (1 << 63) - 1), st.sampled_from([0, 1, (1 << 63) - 1]))
+        return {"mode": "one_sided", "salt": draw(gens.hexbytes(4)), "gen": draw(gen_spec(allow_refused=False)), "side": draw(st.sampled_from(["pos", "neg"])),
+                "shape": draw(st.sampled_from(["pair0", "pair_negH", "triple0", "triple_negH"])), "b1": draw(gens.seckey_valid), "b2": draw(gens.seckey_valid),
+                "v1": draw(v63), "v2": draw(v63), "null_empty": draw(st.booleans()), "brk": draw(st.sampled_from([None, None, None, "b+1", "drop", "v+1"])),
+                "shuffle": draw(st.integers(0, 5))}
     small = st.integers(0, 12)
     cnt = st.one_of(st.integers(0, 3), st.integers(0, 10), st.sampled_from([0, 1, 16]))
     val = st.one_of(st.integers(0, 5), value_st)
@@ -320,9 +396,38 @@ def tally_case(draw):
                           for _ in range(max(lo, draw(cnt)))]
         case["balance"] = draw(st.sampled_from([True, True, True, False]))
         case["complete"] = "bgbs"
+    case["null_empty"] = draw(st.booleans())
     case["perturb"] = draw(st.one_of(st.none(), st.none(), st.fixed_dictionaries({
         "kind": st.sampled_from(["v+1", "v-1", "drop", "dup", "move", "b+1", "g_next"]), "side": st.sampled_from(["pos", "neg"]), "i": small})))
     return case
+
+
+def expand_one_sided(case):
+    """-> a plain-mode case whose single non-empty side cancels by itself (unless 'brk' spoils it)"""
+    b1, b2, v1, v2 = case["b1"], case["b2"], case["v1"], case["v2"]
+    while b2 % N == 0 or (b1 + b2) % N == 0:
+        b2 = (b2 + 1) % N
+    sh = case["shape"]
+    if sh == "pair0":                   # b*G and (n-b)*G
+        ents = [{"g": 0, "v": 0, "b": b1}, {"g": 0, "v": 0, "b": N - b1}]
+    elif sh == "pair_negH":             # b*G + v*H and (n-b)*G + v*(-H)
+        ents = [{"g": 0, "v": v1, "b": b1}, {"g": 1, "v": v1, "b": N - b1}]
+    elif sh == "triple0":
+        ents = [{"g": 0, "v": 0, "b": b1}, {"g": 0, "v": 0, "b": b2}, {"g": 0, "v": 0, "b": (-b1 - b2) % N}]
+    else:                               # (v1+v2)*H against v1*(-H) and v2*(-H), blinding factors summing to zero
+        ents = [{"g": 0, "v": v1 + v2, "b": b1}, {"g": 1, "v": v1, "b": b2}, {"g": 1, "v": v2, "b": (-b1 - b2) % N}]
+    k = case["shuffle"] % len(ents)
+    ents = ents[k:] + ents[:k]
+    brk = case.get("brk")
+    if brk == "b+1":
+        ents[0] = dict(ents[0], b=(ents[0]["b"] + 1) % N)
+    elif brk == "drop":
+        ents.pop()
+    elif brk == "v+1":
+        ents[0] = dict(ents[0], v=ents[0]["v"] + 1)
+    side, other = case["side"], ("neg" if case["side"] == "pos" else "pos")
+    return {"mode": "plain", "salt": case["salt"], "gens": [case["gen"], {"k": "neg_of", "i": 0}], side: ents, other: [], "raw": [], "balance": False, "complete": "none",
+            "perturb": None, "null_empty": case["null_empty"]}, brk
 
 
 def balance_entries(case, keyf):
@@ -383,6 +488,11 @@ def run_tally(env, case):
     lib = env.lib
     lib.reset()
     classes = ["mode:" + case["mode"]]
+    one_sided = broken = None
+    if case["mode"] == "one_sided":
+        one_sided = case["shape"]
+        case, broken = expand_one_sided(case)
+        classes.append("shape:" + one_sided)
     asset = case["mode"] == "asset"
     # ---- generators
     if not asset:
@@ -469,15 +579,28 @@ def run_tally(env, case):
             nraw += 1
     if nraw:
         classes.append("raw_parsed")
-    got = lib_tally(env, objs["pos"], objs["neg"])
+    null_empty = bool(case.get("null_empty")) and NULL_EMPTY_SIDE
+    got = lib_tally(env, objs["pos"], objs["neg"], null_empty=null_empty)
     want = PD.tally(pts["pos"], pts["neg"])
     env.require(got == (1 if want else 0), "verify_tally returned %d but the positive minus the negative commitments %s the point at infinity"
-                % (got, "sum to" if want else "do not sum to"), npos=len(pts["pos"]), nneg=len(pts["neg"]))
+                % (got, "sum to" if want else "do not sum to"), npos=len(pts["pos"]), nneg=len(pts["neg"]), empty_side_as_null=null_empty)
+    if null_empty and (not objs["pos"] or not objs["neg"]):
+        classes.append("null_empty_side")
+        # the empty side as a pointer to nothing must give the same verdict
+        env.require(lib_tally(env, objs["pos"], objs["neg"]) == got, "verify_tally gives different verdicts for an empty side passed as NULL and as a pointer to an empty list")
     if completed and balanced and pert is None and nraw == 0 and "inf_commit_skipped" not in classes:
         env.require(got == 1, "value-balanced commitments with the helper-computed last blinding factor do not tally")
         classes.append("balanced_by_helper")
     env.require(lib.illegal() == 0 and lib.errors() == 0, "callback fired: " + lib.cbmsg())
     classes.append("tally=%d" % got)
+    if one_sided:
+        if broken is None and "inf_commit_skipped" not in classes:
+            env.require(got == 1, "a one-sided list that sums to the point at infinity on its own does not tally (other side empty)", shape=one_sided)
+            classes.append("one_sided_cancelling")
+            if null_empty:
+                classes.append("one_sided_cancelling_null")
+        elif broken:
+            classes.append("one_sided_spoiled")
     if not objs["pos"] or not objs["neg"]:
         classes.append("empty_side")
     if not objs["pos"] and not objs["neg"]:
@@ -586,14 +709,17 @@ TESTS = [
          must_cover=["gen:h", "gen:seed", "gen:blinded", "gen:blinded_refused", "gen:parsed_mul", "gen:parsed_x", "b>=n", "b=0", "b=n-1", "v=0", "v=2^63", "v=2^64-1",
                      "cancel", "refused_inf", "refused_b", "ok", "tweak_add_equiv"]),
     Test("blind_sums", blindsum_case, run_blindsum, quick=2400, thorough=40000, cfgs=_CFG, max_workers=6,
-         must_cover=["sum_ok", "sum_overflow", "bgbs_ok", "bgbs_overflow", "n=0", "one_sided"]),
+         must_cover=["sum_ok", "sum_overflow", "bgbs_ok", "bgbs_overflow", "n=0", "one_sided", "alias:out_in", "alias:in_in", "alias_out_pos", "alias_out_neg",
+                     "alias:bgbs_last_rp", "alias:bgbs_last_r"]),
     Test("commit_cfg", commit_case, run_commit, quick=500, thorough=4000, max_workers=3,
          cfgs={"quick": ["int64", "struct"], "thorough": ["int64", "struct", "noasm"]}, must_cover=["ok", "refused_b"]),
     Test("blind_sums_cfg", blindsum_case, run_blindsum, quick=600, thorough=4000, max_workers=3,
          cfgs={"quick": ["int64", "struct"], "thorough": ["int64", "struct", "noasm"]}, must_cover=["sum_ok", "sum_overflow", "bgbs_ok"]),
     Test("tally", tally_case, run_tally, quick=1500, thorough=30000, cfgs=_CFG, max_workers=8,
          must_cover=["tally=1", "tally=0", "balanced_by_helper", "completed_blind_sum", "completed_bgbs", "empty_side", "both_empty", "multi_generator",
-                     "unbalanced_one_unit_rejected", "raw_parsed", "H_and_minus_H", "long_list", "perturb:drop", "perturb:b+1"]),
+                     "unbalanced_one_unit_rejected", "raw_parsed", "H_and_minus_H", "long_list", "perturb:drop", "perturb:b+1",
+                     "one_sided_cancelling", "one_sided_spoiled", "shape:pair0", "shape:pair_negH", "shape:triple0", "shape:triple_negH"]
+         + (["null_empty_side", "one_sided_cancelling_null"] if NULL_EMPTY_SIDE else [])),
     Test("parse_grid", parse_grid, run_grid, kind="enum", cfgs=_CFG, max_workers=4,
          must_cover=["on_curve", "off_curve", "x>=p", "x_plus_p", "sign_pinned", "boundary"]),
 ]
